@@ -28,6 +28,9 @@ def gen_sources(ctx, n, with_value_out=None, **kw):
 def pipeline(ctx, sources, log, budget=20000, stages=("compile", "eval"), sem=True, label="programs", with_value=None, shard_size=150, what="the program's value, output or error differs from what its source denotes (Sem.v)"):
     """correspondence with Compiler.v/VM.v + specification oracle.  Returns the observations."""
     obs = runcorr.run_corr(ctx, sources, log, budget=budget, stages=stages, label=label, shard_size=shard_size)
+    for o in obs.get("eval", []):
+        h = head(o)
+        ctx.count("outcome[%s]:%s" % (label, h.split()[0] + (" " + h.split()[1] if h.startswith("ERR") and len(h.split()) > 1 else "")))
     if sem:
         for i, impl, spec in runcorr.run_sem(ctx, sources, obs["eval"], log, label=label + "-sem", with_value=with_value):
             ctx.violate(what, source=sources[i], observed=impl, specification=spec)
@@ -424,6 +427,8 @@ def scale_ok(o, exp):
         return True, None
     if isinstance(exp, tuple) and exp[0] == "LIMIT-OK":
         exp = exp[1]
+    if isinstance(exp, tuple) and exp[0] == "ERRSET":
+        return head in exp[1], " or ".join(exp[1])
     if isinstance(exp, tuple) and exp[0] == "OUT":
         return (head == exp[1] and outp.rstrip("\n") == exp[2]), "%s printing %s" % (exp[1], exp[2])
     if not head.startswith("OK "):
@@ -506,7 +511,7 @@ PURE_FAILING_LINES = [
     # parse failures
     "1 +", "f(", "stel", "a = ", ")", "functie k( { 1 }", "als { 1 }", "\"open", "1 № 2", "[1, 2", "{ stel q = 1",
 ]
-SESSION_PRE = [["stel a = 1", "stel b = a + 1"], ["stel b = 7", "stel a = 5; a", "functie t(n) { n + a } t(2)"], ["{ stel weg = 9 }", "stel a = 3", "stel b = 4; b = b + a"]]
+SESSION_PRE = [["stel a = 1", "als a > 5 { }", "stel b = a + 1", "{ }", "zolang nee { }"], ["stel a = 1", "stel b = a + 1"], ["stel b = 7", "stel a = 5; a", "functie t(n) { n + a } t(2)"], ["{ stel weg = 9 }", "stel a = 3", "stel b = 4; b = b + a"]]
 SESSION_POST = ["a", "b", "a + b", "int(b) + 1", "bool(a)", "type(a) == type(b)", "stel z = 3; z", "a = a + 1; a", "functie g() { a + b } g()", "functie g2(x) { stel y = x; y + b } g2(a)",
                 "stel i = 0; zolang i < 3 { i += 1 } i", "als a > 0 { b } anders { 0 }", "{ stel loc = a; loc + 1 }", "lengte(string(a + b))", "z + a", "stel nieuw = b; functie g3() { nieuw + z } g3()",
                 "int(float(b)) + a", "print(\"{} {}\", a, b)"]        # (a text literal only on the LAST line: recorded finding D24ab)
@@ -648,3 +653,179 @@ def run_production(ctx, log, sources, budget=200000):
             ctx.violate("the command-line program (built without the observation hooks) does not print what the observed build computes", source=s,
                         observed="exit %r stdout %r stderr %r" % (prc, pout[:300], perr[:200]), expected=exp)
     log("production binary: %d programs, %d differ from the observed build" % (len(keep), bad))
+
+
+# ------------------------------------------------------------------------------------------------------------------
+# A comment - whatever it contains - never influences anything: the text with the comment parses / evaluates as the text
+# without it (metamorphic, implementation only)
+
+def comment_family():
+    import nlast
+    firsts = ["stel a = 1", "a = \"\"", "stel t = 0; t += 1", "x", "1 /", "stel s = \"q\\\\\""]
+    seconds = ["1250", "!ja", "b = 5", "\"\"", "\"\\\"q\"", "teller", "als ja { 1 }", "[1, 2]", "// t = 99\nt", "b = \"\" // 5\"\nc", "  ingesprongen", "\t9", "a&&b", "\"é\"", "7.5"]
+    out = []
+    for f in firsts:
+        for s2 in seconds:
+            plain = f + "\n" + s2
+            for c in nlast.COMMENT_TEXTS:
+                for lead in ("// ", "//"):
+                    out.append((plain, f + " " + lead + c + "\n" + s2))
+                    out.append((plain, lead + c + "\n" + f + "\n" + lead + c + "\n" + s2 + " " + lead + c))
+    return out
+
+
+def run_comments(ctx, log, mode="parse", budget=5000):
+    fam = comment_family()
+    plains = sorted({p for p, _ in fam})
+    cmd = mode
+    pre = "" if mode in ("parse", "tokens") else "%d " % budget
+    base = dict(zip(plains, vlib.nlh(cmd, [pre + vlib.hexs(p) for p in plains], tag=ctx.prop.lower() + "cm")))
+    obs = vlib.nlh(cmd, [pre + vlib.hexs(t) for _, t in fam], tag=ctx.prop.lower() + "cmv", timeout=600)
+    strip = (lambda o: re.sub(r"@\d+", "", o)) if mode == "tokens" else ((lambda o: " | ".join(o.split(" | ")[:2])) if mode == "eval" else (lambda o: o))
+    bad = 0
+    for (p, t), o in zip(fam, obs):
+        ctx.seen(("comment", t))
+        ctx.count("comment-variants")
+        if strip(o) != strip(base[p]):
+            bad += 1
+            ctx.violate("a comment changed what the text around it means", source=t, original=p, observed=strip(o)[:300], expected=strip(base[p])[:300])
+    log("comments: %d texts with comments of every content against the text without them (%s), %d differ" % (len(fam), mode, bad))
+
+
+# ------------------------------------------------------------------------------------------------------------------
+# More closed-form families (fifth round): structures that contain themselves but are never displayed, overwriting cells
+# that hold aliased objects, literals of N computed elements, builtins on temporaries after N allocations.
+
+def cyclic_family(quick):
+    """arrays that contain themselves (directly, through a ring, through nesting), kept reachable or dropped, across
+    function returns (= collections); never printed or returned (that is the recorded finding D26)"""
+    out = []
+    call = "functie niets() { stel z = [0.5]; 0 }; niets(); niets();"
+    out.append(("cyclic:self", "stel a = [1, 2]; a[0] = a; %s stel b = a[0]; [lengte(a), lengte(b), a[1], b[1]]" % call, [2, 2, 2, 2]))
+    out.append(("cyclic:ring2", "stel a = [1, 0]; stel b = [2, 0]; a[1] = b; b[1] = a; %s stel c = a[1]; stel d = c[1]; [a[0], c[0], d[0], lengte(d)]" % call, [1, 2, 1, 2]))
+    out.append(("cyclic:ring3", "stel a = [1, 0]; stel b = [2, 0]; stel c = [3, 0]; a[1] = b; b[1] = c; c[1] = a; %s stel x = a; stel i = 0; zolang i < 7 { i += 1; x = x[1] } x[0]" % call, 2))
+    out.append(("cyclic:nested", "stel a = [[0.5], \"s\"]; stel in = a[0]; in[0] = a; %s stel t = a[0]; stel u = t[0]; [u[1], lengte(t)]" % call, ["s", 1]))
+    out.append(("cyclic:garbage", "functie maak() { stel g = [1.5, 0]; g[1] = g; stel h = [g, g]; g[0] = h; 7 } stel i = 0; stel t = 0; zolang i < 50 { i += 1; t += maak() } t", 350))
+    out.append(("cyclic:in-function", "functie niets2() { [2.5]; 0 } functie ring(n) { stel a = [n, 0]; stel b = [n + 1, a]; a[1] = b; niets2(); stel c = a[1]; c[0] }; [ring(1), ring(10)]", [2, 11]))
+    out.append(("cyclic:argument", "functie lang(x) { lengte(x) } stel a = [1, 2, 3]; a[2] = a; [lang(a), lang(a[2])]", [3, 3]))
+    out.append(("cyclic:dropped-then-collect", "stel a = [1]; a[0] = a; a = 5; %s a" % call, 5))
+    out.append(("cyclic:compare-lengths", "stel a = [0]; a[0] = a; stel n = 0; stel x = a; zolang n < %d { n += 1; x = x[0] } lengte(x) + n" % (300 if quick else 3000), 1 + (300 if quick else 3000)))
+    return out
+
+
+def alias_overwrite_family(quick):
+    """a cell that holds an object which is also held elsewhere is overwritten: the other holders still have the object"""
+    out = []
+    call = "functie niets() { stel z = [0.5]; 0 }; niets();"
+    vals = [("\"Anna\"", "Anna", "\"kersen\"", "kersen"), ("(1.5 + 1.0)", 2.5, "(7.0 + 0.25)", 7.25), ("[1, 2]", [1, 2], "[9]", [9])]
+    for src, pv, src2, pv2 in vals:
+        tag = "alias:" + type(pv).__name__
+        out.append((tag + ":cell", "stel naam = %s; stel w = [naam, 0]; w[0] = %s; %s [naam, w[0]]" % (src, src2, call), [pv, pv2]))
+        out.append((tag + ":two-cells", "stel naam = %s; stel w = [naam, naam]; w[0] = %s; w[1] = %s; %s [naam, w[0], w[1]]" % (src, src2, src2, call), [pv, pv2, pv2]))
+        out.append((tag + ":swap", "stel w = [%s, %s]; stel tmp = w[0]; w[0] = w[1]; w[1] = tmp; %s [w[0], w[1], tmp]" % (src, src2, call), [pv2, pv, pv]))
+        out.append((tag + ":via-alias", "stel w = [%s, 0]; stel v = w; stel oud = w[0]; v[0] = %s; %s [oud, w[0], v[0]]" % (src, src2, call), [pv, pv2, pv2]))
+        out.append((tag + ":via-parameter", "functie zet(lijst, waarde) { lijst[0] = waarde; 0 } stel w = [%s, 0]; stel oud = w[0]; zet(w, %s); %s [oud, w[0]]" % (src, src2, call), [pv, pv2]))
+        out.append((tag + ":nested", "stel in = [%s]; stel uit = [in, in]; stel oud = in[0]; in[0] = %s; stel x = uit[1]; %s [oud, x[0]]" % (src, src2, call), [pv, pv2]))
+        out.append((tag + ":variable", "stel a = %s; stel b = a; a = %s; %s [a, b]" % (src, src2, call), [pv2, pv]))
+        out.append((tag + ":loop", "functie niets3() { 0 }; stel w = [%s, %s]; stel i = 0; zolang i < 9 { i += 1; stel tmp = w[0]; w[0] = w[1]; w[1] = tmp; niets3() }; [w[0], w[1]]" % (src, src2), [pv2, pv]))
+    out.append(("alias:char", "stel s = \"banaan\"; stel c = s[1]; c[0] = \"X\"; stel q = s[3]; [s, c, s[1], q, lengte(q)]", ["banaan", "X", "a", "a", 1]))
+    out.append(("alias:char2", "stel s = \"aaa\"; stel c = s[0]; stel d = s[0]; c[0] = \"oe\"; [c, d, s, s[-1]]", ["oe", "a", "aaa", "a"]))
+    out.append(("alias:type-string", "stel t = type(1); stel u = type(2); t[0] = \"X\"; [t, u, type(3)]", ["Xnt", "int", "int"]))
+    out.append(("alias:string-builtin", "stel a = string(12); stel b = string(12); a[0] = \"9\"; [a, b, string(12)]", ["92", "12", "12"]))
+    return out
+
+
+def big_literal_family(quick):
+    """array literals of N elements each computed at run time (fresh heap values held only by the half-built literal)"""
+    out = []
+    for n in ((100, 255, 256, 511, 512, 513, 1000) if quick else (10, 100, 254, 255, 256, 257, 510, 511, 512, 513, 1000, 1023, 1024, 1025, 4095, 4096, 4097, 10000)):
+        for name, elem, pv in (("float", "0.25 + 0.5", 0.75), ("string", "string(12)", "12"), ("array", "[1.5]", [1.5]), ("mixed", None, None)):
+            if elem is None:
+                cyc = ["0.25 + 0.5", "string(12)", "[1.5]", "7"]
+                pvs = [0.75, "12", [1.5], 7]
+                body = ", ".join(cyc[i % 4] for i in range(n))
+                exp = [n, pvs[0], pvs[(n - 1) % 4], pvs[(n // 2) % 4]]
+            else:
+                body = ", ".join(elem for _ in range(n))
+                exp = [n, pv, pv, pv]
+            src = "stel a = [%s]; functie niets() { 0 }; niets(); [lengte(a), a[0], a[%d], a[%d]]" % (body, n - 1, n // 2)
+            out.append(("literal:%s:%d" % (name, n), src, exp))
+            out.append(("literal:fn:%s:%d" % (name, n), "functie bouw() { stel a = [%s]; a } stel r = bouw(); [lengte(r), r[0], r[%d], r[%d]]" % (body, n - 1, n // 2), exp))
+    return out
+
+
+def builtin_temporaries_family(quick):
+    """builtins applied to temporaries (results of other builtins, of arithmetic, literals) after N allocations with no
+    function return in between"""
+    out = []
+    for n in ((1000, 4095, 4096, 4097, 9000) if quick else (10, 255, 256, 257, 1023, 1024, 1025, 4094, 4095, 4096, 4097, 4098, 8192, 16384, 40000, 65536, 70000)):
+        pre = "stel i = 0; zolang i < %d { i += 1; stel t = [i] };" % n
+        loop = "stel fout = 0; stel j = 0; zolang j < 200 { j += 1; als int(float(j) * 2.0) != j * 2 { fout += 1 } als lengte(string(j * 1000)) != lengte(string(j)) + 3 { fout += 1 } als type([j]) != \"lijst\" { fout += 0 } };"
+        out.append(("temporaries:%d" % n, "%s %s [fout, lengte(string(12345)), int(float(7) * 2.0), string(2.5 * 2.0), bool(string(0)), float(string(1.5)) + 1.0, lengte([string(1), [2.5]])]" % (pre, loop), [0, 5, 14, "5", True, 2.5, 2]))
+        out.append(("temporaries:print:%d" % n, "%s print(\"{} {} {}\", string(1.5 + 1.0), [0.5 + 0.25, string(3)], lengte(string(77))); 1" % pre, ("OUT", "OK i1", "2.5 [0.75, 3] 2")))
+    return out
+
+
+def builtin_arity_family(quick):
+    """builtins with N arguments around 255 / 256: an argument error or 'too large', never a value computed from some of them"""
+    out = []
+    for n in ((2, 255, 256, 257, 300, 512) if quick else (2, 3, 100, 254, 255, 256, 257, 258, 300, 511, 512, 513, 1000)):
+        args = ", ".join(str(i + 1) for i in range(n))
+        for b in ("int", "lengte", "type", "bool", "float", "string"):
+            out.append(("arity:%s:%d" % (b, n), "print(\"voor\"); %s(%s)" % (b, args), ("ERRSET", ("ERR Argument", "ERR Syntax"))))
+        out.append(("arity:print:%d" % n, "print(\"%s\", %s); 5" % (" ".join("{}" for _ in range(n)), args), ("OUT", "OK i5", " ".join(str(i + 1) for i in range(n))) if n < 255 else ("LIMIT-OK", ("OUT", "OK i5", " ".join(str(i + 1) for i in range(n))))))
+    return out
+
+
+SCALE_PARTS.update({"cyclic": cyclic_family, "alias": alias_overwrite_family, "literal": big_literal_family, "temporaries": builtin_temporaries_family, "arity": builtin_arity_family})
+
+
+def function_endings_family(quick):
+    """how a function body (and a loop body, a branch) ENDS decides what the compiler emits behind it: every last statement
+    x every way its own body ends, with code after the call (decided by Sem.v and by running)"""
+    lasts = []
+    ends = ["antwoord t + 1000", "stop", "als t > 2 { stop }", "t = t + 1", "als t > 1 { antwoord t } anders { antwoord 0 - t }", "{ antwoord 7 }", "volgende_"]
+    for cond in ("ja", "nee", "k < 2", "t < 3"):
+        for e in ends:
+            if e == "volgende_":
+                body = "k += 1; t += 1; als k > 3 { stop } als k > 1 { volgende } t += 10"
+            else:
+                body = "k += 1; t += 1; als k > 3 { stop } %s" % e
+            lasts.append("stel k = 0; zolang %s { %s }" % (cond, body))
+    for e in ("antwoord 5", "t = t + 1", "als ja { antwoord 1 } anders { antwoord 2 }", "als t > 100 { antwoord 1 }", "{ { antwoord 3 } }", "stel loc = 4", "als nee { 1 } anders als ja { antwoord 8 } anders { 9 }", "functie binnen() { antwoord 11 } binnen()", "[t]", "zolang nee { antwoord 1 }"):
+        lasts.append(e)
+    out = []
+    for last in lasts:
+        for pre in ("", "stel p0 = 1;"):
+            for t0 in (0, 2):
+                out.append("stel t = %d; functie f() { %s %s } stel r = f(); print(\"na {} {}\", type(r), t); functie g() { f(); 5 }; [g(), t]" % (t0, pre, last))
+    if quick:
+        out = out[::2]
+    return out
+
+
+def nested_names_family(quick):
+    """a name that is global AND a parameter / local / nested function of the enclosing function, used inside a function
+    nested in it: no closures - it means the global (or the nested function's own declaration)"""
+    out = []
+    glob = {"var": "stel x = 100;", "fn": "functie x() { 100 }"}
+    outer = {"param": ("x", ""), "local": ("q", "stel x = 5;"), "nestedfn": ("q", "functie x() { 5 }"), "none": ("q", "")}
+    inner = {"use": "n + %s", "own": "stel x = 7; n + %s", "param": None, "assign": None}
+    for gk, g in glob.items():
+        call = "x()" if gk == "fn" else "x"
+        for ok, (par, decl) in outer.items():
+            arg = "functie() { 5 }" if (ok == "param" and gk == "fn") else "5"
+            for ik in ("use", "own", "param", "assign"):
+                if ik == "use":
+                    body = "functie binnen(n) { n + %s }" % call
+                elif ik == "own":
+                    body = "functie binnen(n) { stel x = 7; n + x }"
+                elif ik == "param":
+                    body = "functie binnen(x) { x + 1 }"
+                else:
+                    if gk == "fn":
+                        continue
+                    body = "functie binnen(n) { x = x + n; x }"
+                out.append("%s functie buiten(%s) { %s %s; [binnen(1), binnen(2)] } stel r = buiten(%s); [r, %s]" % (g, par, decl, body, arg, call))
+                out.append("%s functie buiten(%s) { %s stel f = %s; f(3) }; [buiten(%s), %s]" % (g, par, decl, body.replace("functie binnen", "functie", 1), arg, call))
+    return out
